@@ -301,16 +301,22 @@ class C11(EvalFamProp):
         return cases + [gen_bunch_case(r3) for _ in range(max(1, n // 2))]
 
     def model_requests(self, case):
+        if case.get('files'):
+            return []           # !rec is outside the model (DESIGN section 6): the oracle alone applies
         if case.get('kind') == 'bunch':
             return bunch_requests(case, bunch_run(case))
         return EvalFamProp.model_requests(self, case)
 
     def model_obs(self, case, answers):
+        if case.get('files'):
+            return {'rec': True}
         if case.get('kind') == 'bunch':
             return {'bunch': answers[0]}
         return EvalFamProp.model_obs(self, case, answers)
 
     def compare(self, case, io, mo):
+        if case.get('files'):
+            return 'SKIP'
         if case.get('kind') == 'bunch':
             return bunch_compare(case, io, mo['bunch'])
         return EvalFamProp.compare(self, case, io, mo)
@@ -347,6 +353,11 @@ class C11(EvalFamProp):
             B([], [['getattr', 'ayns'], ['setattr', 'ayns', 0], ['getitem', 'ayns'], ['getattr', 'ayns'], ['delattr', 'ayns'], ['delattr', 'ayns'],
                    ['getattr', '_source'], ['delattr', '_user_data'], ['getattr', '_user_data']], [cfgdoc]),
         ] + [
+            # lazily included files (!rec): evaluating must not rewrite the kept source (seeded change S6-C11), outside the model
+            dict(D(M({'which': S(1), 'sub': Stext('t1.yaml', 'rec', txt='!rec'), 'm': M({'r': Stext('t2.yaml', 'rec', txt='!rec')})})),       # (a !rec node inside a LIST fails on getattr(enode, int): !rec is outside every domain)
+                 files={'t1.yaml': 'p: 1\nq: [1, {r: 2}]\n', 't2.yaml': 'x: {y: 3}\n'}),
+            dict(D(M({'a': M({'b': Q([Stext('t1.yaml', 'rec', txt='!rec'), Stext('t2.yaml', 'rec', txt='!rec')], tag='rec', txt='!rec')})})),
+                 files={'t1.yaml': 'p: 1\n', 't2.yaml': 'p: 2\nz: [0]\n'}),
             # evaluated code that builds containers (several statements): outside the model's restricted !eval (comparison skipped),
             # the re-evaluation / mutation checks apply (seeded change S5-C11: a cached namespace handed the same objects out again)
             D(M({'k': S(3), 'e': Stext('q = [1, 2]\nq', 'eval'), 'm': Stext("d = {'a': [k], 'b': {}}\nd", 'eval')})),
@@ -407,6 +418,10 @@ class C11(EvalFamProp):
                 checks.append('result is not a Bunch')
             src = cfg.ayns.source
             before = dump_node(src)
+            if obs.get('pre_dump') is not None:
+                d = first_diff(obs.pop('pre_dump'), before)
+                if d:
+                    checks.append('the source tree kept by the config differs from the merged tree it was constructed from (evaluation rewrote it): ' + d)
             first = renumber(conv_val(cfg, w, {}))
             for i in range(2):
                 again = Config(src, eval_ctx=EvalContext(eval_symbols=w.syms))
@@ -436,6 +451,18 @@ class C11(EvalFamProp):
             except Exception as e:  # noqa
                 checks.append(f'after mutating the evaluated config, evaluating the kept source raises {type(e).__name__}')
             obs['checks'] = checks
+        if case.get('files'):
+            # lazily included files (`!rec name`): real files in a temp directory that is the working directory during the run
+            import tempfile, shutil
+            d = tempfile.mkdtemp(prefix='ayc11_'); old = os.getcwd()
+            try:
+                for name, text in case['files'].items():
+                    with open(os.path.join(d, name), 'w') as f:
+                        f.write(text)
+                os.chdir(d)
+                return run_case(case['docs'], self.WORLD, tuple(case.get('style', ['flow', 0, 0])), extra=extra)
+            finally:
+                os.chdir(old); shutil.rmtree(d, ignore_errors=True)
         return run_case(case['docs'], self.WORLD, tuple(case.get('style', ['flow', 0, 0])), extra=extra)
 
     def oracle(self, case, io, ans):
